@@ -34,8 +34,10 @@ _HEAD = struct.pack(">IIIIHHqqhhhhHHhhh", 0x00010000, 0x00010000, 0, 0x5F0F3CF5,
 _HHEA = struct.pack(">IhhhHhhhhhhhhhhhH", 0x00010000, 800, -200, 0, 1000, 0, 0, 1000, 1, 0, 0, 0, 0, 0, 0, 0, 1)
 
 
-def build_font(groups):
-    """groups: sorted, disjoint (start, end, start_gid); glyph = start_gid + (c - start)."""
+def build_font(groups, uvs=None):
+    """groups: sorted, disjoint (start, end, start_gid); glyph = start_gid + (c - start).
+    uvs: None | [(base, selector, gid | None)] -> an additional cmap format 14 subtable (0,5); gid None = default
+    UVS entry (the variant is the nominal glyph of the base)."""
     ng = 1
     for s, e, g in groups:
         ng = max(ng, min(65535, g + (e - s) + 1))
@@ -48,12 +50,24 @@ def build_font(groups):
     sub = struct.pack(">HHIII", 12, 0, 16 + 12 * len(groups), 0, len(groups))
     for s, e, g in groups:
         sub += struct.pack(">III", s, e, g)
-    cmap = struct.pack(">HHHHI", 0, 1, 3, 10, 12) + sub
+    if uvs:
+        import fontbuild
+        sub14 = fontbuild._cmap_subtable({"format": 14, "uvs": [list(u) for u in uvs]})
+        cmap = struct.pack(">HHHHIHHI", 0, 2, 0, 5, 20, 3, 10, 20 + len(sub14)) + sub14 + sub
+    else:
+        cmap = struct.pack(">HHHHI", 0, 1, 3, 10, 12) + sub
     return _sfnt({"head": _HEAD, "hhea": _HHEA, "maxp": maxp, "hmtx": hmtx, "cmap": cmap})
 
 
 def cmap_spec(groups):
     return ",".join(f"{s}-{e}:{g}" for s, e, g in groups) if groups else "-"
+
+
+def uvs_spec(uvs):
+    """the `uvs` token of `norm runv`: vs:d:lo:hi (default UVS range) | vs:n:cp:gid (non-default mapping)"""
+    if not uvs:
+        return "-"
+    return ",".join(f"{v}:d:{c}:{c}" if g is None else f"{v}:n:{c}:{g}" for c, v, g in uvs)
 
 
 def groups_from_set(cps, gid_of=None):
@@ -235,7 +249,67 @@ def rand_text(r, P, U):
                 for _ in range(r.below(3)):
                     t.append(r.choice(P["seconds"]))
     t = [c for c in t if c not in U.vs and not (0xD800 <= c <= 0xDFFF)]
-    return t or [0x41]
+    t = t or [0x41]
+    if r.chance(2, 5):
+        t = add_selectors(r, t, U, P)
+    return t
+
+
+VS_POOL = [0xFE00, 0xFE01, 0xFE0E, 0xFE0F, 0xE0100, 0xE0101, 0xE01EF]
+
+
+def vs_run(r, lo=1):
+    """one selector, or several consecutive ones"""
+    n = r.choice([1, 1, 1, 2, 2, 3]) if lo == 1 else r.choice([2, 2, 3])
+    return [r.choice(VS_POOL) for _ in range(n)]
+
+
+def add_selectors(r, t, U, P):
+    """variation selectors at the places the normalizer distinguishes: after a base, after a mark / inside a mark
+    run, at the end of a mark run, at the very start, and in a LATER unrelated cluster of the same text (the clusters
+    before it must be normalized as if it were not there)"""
+    t = list(t)
+    marks = [i for i, c in enumerate(t) if c in U.marks]
+    bases = [i for i, c in enumerate(t) if c not in U.marks]
+    for _ in range(r.choice([1, 1, 2, 3])):
+        k = r.below(8)
+        if k < 2 and bases:                       # after a base
+            i = r.choice(bases)
+            t[i + 1:i + 1] = vs_run(r)
+        elif k < 4 and marks:                     # after a mark (inside or at the end of a mark run)
+            i = r.choice(marks)
+            t[i + 1:i + 1] = vs_run(r)
+        elif k == 4:                              # at the start of the buffer
+            t[0:0] = vs_run(r)
+        elif k == 5:                              # a later unrelated cluster: base + selector(s) [+ mark]
+            t += [r.choice([0x78, 0x4E00, 0x2205, 0x41])] + vs_run(r) + ([r.choice(P["latin_marks"])] if r.chance(1, 3) else [])
+        elif k == 6:                              # a later cluster: base + mark + selector
+            t += [r.choice([0x78, 0x61, 0xE1])] + [r.choice(P["latin_marks"])] + vs_run(r)
+        else:                                     # a later simple character, then a lone base + selector at the end
+            t += [0x20, r.choice([0x78, 0x2205])] + vs_run(r)
+        marks = [i for i, c in enumerate(t) if c in U.marks]
+        bases = [i for i, c in enumerate(t) if c not in U.marks]
+    return t
+
+
+def rand_uvs(r, text, U):
+    """cmap format 14 content relevant to `text`: none, or default / non-default entries for some of the
+    (character, selector) pairs that occur adjacently (and a few that do not)"""
+    sel = [c for c in text if c in U.vs]
+    if not sel or r.chance(2, 5):
+        return None
+    pairs = []
+    for i in range(len(text) - 1):
+        if text[i + 1] in U.vs and (text[i], text[i + 1]) not in pairs:
+            pairs.append((text[i], text[i + 1]))
+    # (selector, selector) and (non-adjacent base, selector) pairs keep the binary searches honest
+    extra = [(r.choice(text), r.choice(sel)) for _ in range(2)]
+    out = {}
+    for c, v in pairs + extra:
+        if c >= 0x1000000 or not r.chance(3, 4):
+            continue
+        out[(c, v)] = None if r.chance(1, 3) else 300 + r.below(200)
+    return [(c, v, g) for (c, v), g in sorted(out.items())] or None
 
 
 def rand_clusters(r, text, U):
@@ -296,10 +370,11 @@ def rand_support(r, text, U):
     return groups_from_set(chosen)
 
 
-def run_line(mode, level, inv, groups, text, clusters, masks):
-    f = build_font(groups)
+def run_line(mode, level, inv, groups, text, clusters, masks, uvs=None, nfvs=None):
+    f = build_font(groups, uvs)
     t = ",".join(f"{c}:{cl}:{m}" for c, cl, m in zip(text, clusters, masks))
-    return f"norm run {mode} {level} {inv if inv is not None else '-'} {f.hex()} {cmap_spec(groups)} {t}"
+    return (f"norm runv {mode} {level} {inv if inv is not None else '-'} {nfvs if nfvs is not None else '-'} "
+            f"{f.hex()} {cmap_spec(groups)} {uvs_spec(uvs)} {t}")
 
 
 def gen_run_lines(r, n, U):
@@ -314,7 +389,9 @@ def gen_run_lines(r, n, U):
         masks = [0] * len(text) if mk < 2 else [r.choice([0, 1, 2, 3, 7, 0x80000000, 0x80000005]) for _ in text]
         mode = r.choice([0, 1, 2, 2, 3, 4, 4])
         inv = r.choice([None, None, None, 3])
-        lines.append(run_line(mode, r.below(2), inv, groups, text, clusters, masks))
+        uvs = rand_uvs(r, text, U)
+        nfvs = r.choice([None, None, 5]) if any(c in U.vs for c in text) else None
+        lines.append(run_line(mode, r.below(2), inv, groups, text, clusters, masks, uvs, nfvs))
     return lines
 
 
@@ -327,7 +404,25 @@ def classify_run(ln, out):
     ks = ["mode" + t[2]]
     if not out.startswith("ok"):
         return ks + ["reply:" + out.split()[0]]
-    inp = [x[0] for x in parse_text_tok(t[7])]
+    ttok = t[9] if t[1] == "runv" else t[7]
+    inp = [x[0] for x in parse_text_tok(ttok)]
+    vs_at = [i for i, c in enumerate(inp) if 0xFE00 <= c <= 0xFE0F or 0xE0100 <= c <= 0xE01EF]
+    if vs_at:
+        ks.append("vs")
+        if any(j + 1 in vs_at for j in vs_at): ks.append("vs:consecutive")
+        if vs_at[-1] == len(inp) - 1: ks.append("vs:at-end")
+        if vs_at[0] == 0: ks.append("vs:at-start")
+        if any(unicodedata.category(chr(inp[j - 1])).startswith("M") and j - 1 not in vs_at for j in vs_at if j): ks.append("vs:after-mark")
+        # a base + marks cluster without a selector that precedes a selector
+        first = vs_at[0]
+        b = first
+        while b > 0 and unicodedata.category(chr(inp[b])).startswith("M"): b -= 1
+        if any(unicodedata.category(chr(inp[j])).startswith("M") for j in range(1, b)): ks.append("vs:later-than-a-mark-cluster")
+        if t[1] == "runv":
+            if t[8] != "-": ks.append("vs:font-has-format14")
+            if t[5] != "-": ks.append("vs:not-found-glyph-set")
+            fl = int(out.split()[2])
+            if fl & 128: ks.append("vs:fallback-flag")
     o = out.split()
     recs = [tuple(int(x) for x in z.split(":")) for z in o[3:]]
     outc = [x[0] for x in recs]
@@ -351,7 +446,8 @@ def classify_run(ln, out):
     if fl & 4: ks.append("space-fallback")
     if fl & 16: ks.append("cgj")
     if any(x[7] == 0 and x[0] == 0x34F for x in recs): ks.append("cgj-unhidden")
-    if len(set(x[1] for x in recs)) < len(set(x[1] for x in parse_text_tok(t[7]))): ks.append("clusters-merged")
+    if len(set(x[1] for x in recs)) < len(set(x[1] for x in parse_text_tok(ttok))): ks.append("clusters-merged")
+    if vs_at and len([c for c in outc if 0xFE00 <= c <= 0xFE0F or 0xE0100 <= c <= 0xE01EF]) < len(vs_at): ks.append("vs:absorbed-by-variant")
     return ks
 
 
